@@ -5,7 +5,7 @@
    Tie to /repo: translator obligations Gen/rotation_gen.v (source of _compose_quaternions_single and
    _quaternion_to_matrix = qmul / qmat) and the correspondence families of harness/props/C13.py. *)
 From MrVerif Require Import Base.Prelude Base.StarRing Model.Rotation Model.Euler
-  Proofs.RotationProofs Proofs.RotationBatchProofs Proofs.RotationRealProofs Proofs.RotationPowProofs.
+  Proofs.RotationProofs Proofs.RotationBatchProofs Proofs.RotationRealProofs Proofs.RotationPowProofs Proofs.RotationIndexProofs.
 From Coq Require Import Reals QArith Qcanon.
 
 (* matrix(p @ q) = matrix(p) matrix(q), flags combined by XOR *)
@@ -129,6 +129,43 @@ Theorem C13_history_invariant : forall (h : list (edit RRing rotR)) (st : list r
 Proof. exact history_invariant. Qed.
 Print Assumptions C13_history_invariant.
 
+(* index expressions resolved IN THE MODEL (not by numpy) on a 1-D batch: integers (negative allowed) and slices with positive step,
+   Python slice.indices semantics.  Selected positions are inside the batch and pairwise different; i and i - n select the same
+   element and anything outside [-n, n) is rejected; the k-th element of a slice is start + k step and the slice is maximal *)
+Theorem C13_index_positions : forall (n : nat) (ix : index1) (pos : list nat), resolve_index n ix = Some pos ->
+  Forall (fun p => (p < n)%nat) pos /\ NoDup pos.
+Proof. intros; split; [eapply resolve_in_range | eapply resolve_nodup]; eassumption. Qed.
+Print Assumptions C13_index_positions.
+Theorem C13_index_int : forall (n : nat) (i : Z),
+  ((0 <= i < Z.of_nat n)%Z -> resolve_index n (IInt i) = Some [Z.to_nat i] /\ resolve_index n (IInt (i - Z.of_nat n)) = Some [Z.to_nat i])
+  /\ ((i < - Z.of_nat n \/ Z.of_nat n <= i)%Z -> resolve_index n (IInt i) = None).
+Proof. intros; split; [apply resolve_int | apply resolve_int_reject]. Qed.
+Print Assumptions C13_index_int.
+Theorem C13_index_slice : forall (n : nat) (a b st : option Z), let step := match st with None => 1%Z | Some s => s end in (0 < step)%Z ->
+  let start := clamp_index (Z.of_nat n) 0 a in let stop := clamp_index (Z.of_nat n) (Z.of_nat n) b in
+  exists pos, resolve_index n (ISlice a b st) = Some pos
+    /\ (forall k, (k < length pos)%nat -> nth k pos 0%nat = Z.to_nat (start + Z.of_nat k * step)%Z)
+    /\ ((start < stop)%Z -> (stop <= start + Z.of_nat (length pos) * step)%Z) /\ ((stop <= start)%Z -> pos = []).
+Proof. exact resolve_slice. Qed.
+Print Assumptions C13_index_slice.
+(* __getitem__ with such an index: one element per selected position, in order; __setitem__ then __getitem__ with the same index reads
+   the assigned value back, leaves every other element alone and keeps the batch size; both commute with taking matrices *)
+Theorem C13_getitem_setitem : forall (E : Type) (d : E) (ix : index1) (vals l l' : list E) (pos : list nat),
+  resolve_index (length l) ix = Some pos -> length vals = length pos -> setitem_ix ix vals l = Some l' ->
+  getitem_ix d ix l' = Some vals /\ length l' = length l /\ (forall j, ~ In j pos -> nth j l' d = nth j l d).
+Proof. exact setitem_getitem. Qed.
+Print Assumptions C13_getitem_setitem.
+Theorem C13_getitem_elements : forall (E : Type) (d : E) (ix : index1) (l g : list E) (pos : list nat),
+  resolve_index (length l) ix = Some pos -> getitem_ix d ix l = Some g ->
+  length g = length pos /\ forall k, (k < length pos)%nat -> nth k g d = nth (nth k pos 0%nat) l d.
+Proof. exact getitem_elements. Qed.
+Print Assumptions C13_getitem_elements.
+Theorem C13_index_natural : forall (E M : Type) (obs : E -> M) (d : E) (ix : index1) (vals l : list E),
+  option_map (map obs) (getitem_ix d ix l) = getitem_ix (obs d) ix (map obs l)
+  /\ option_map (map obs) (setitem_ix ix vals l) = setitem_ix ix (map obs vals) (map obs l).
+Proof. intros; split; [apply getitem_natural | apply setitem_natural]. Qed.
+Print Assumptions C13_index_natural.
+
 (* normalisation (constructor, reshape, invert_axes): matrix M(q)/|q|^2, unit norm afterwards, identity on unit quaternions *)
 Theorem C13_normalize : forall q : quatR,
   qmat RRing (r_normalize q) = mscal RRing (/ qnorm2 RRing q)%R (qmat RRing q)
@@ -165,3 +202,7 @@ Proof. vm_compute. repeat split; reflexivity. Qed.
 Example C13_example_history :
   fst (qc_history [EdReflect; EdSetComp 2%nat [qcq 1 2; qcq 0 1]; EdGather [1%nat; 0%nat]] [qrot_lit 1 2 2 4 5 true; qrot_lit 2 3 6 0 7 false]) = true.
 Proof. vm_compute. reflexivity. Qed.
+Example C13_example_index :
+  resolve_index 5 (ISlice (Some (-4)%Z) None (Some 2%Z)) = Some [1%nat; 3%nat] /\ resolve_index 5 (IInt (-1)) = Some [4%nat]
+  /\ resolve_index 5 (IInt 5) = None /\ resolve_index 5 (ISlice (Some 3%Z) (Some 1%Z) None) = Some [].
+Proof. vm_compute. repeat split; reflexivity. Qed.
